@@ -937,15 +937,19 @@ def check_arguments_untouched(r, rule, functions):
     """Every statement is about what a call *returns* for given arguments; all of them presuppose that the arguments are still what the caller
     passed when the next call is made (a rarefaction curve calls subsample on one count vector many times, an estimator and its variance are
     computed from the same array).  The properties' own purity obligations sit behind their value rules and are not reached when those stop
-    on an unknown construct, so the write-set analysis is repeated here for the public functions on the property's path: no write through any
+    on an unknown construct, so the write-set analysis is repeated here for the public functions on the property's path that the validated tree already had: no write through any
     alias of an argument (np.asarray / ensure_numpy of an array is the array).  Only failures are recorded (the discharged obligations are
     the properties' own)."""
     from .eff import effects_for
+    from .rules import BASELINE_VOCAB
     E = effects_for(r)
+    known = set(BASELINE_VOCAB.get("__functions__") or ())
     for q in sorted(functions):
         f = r.P.functions.get(q)
         if f is None or q.rsplit(".", 1)[1].startswith("_") or f.parent:
             continue
+        if known and q not in known:
+            continue          # a helper introduced later may be in-place by design; what matters is what the validated API does with *its* arguments (writes are followed through callees)
         try:
             s = r.A.summary(q)
         except AnalysisBroken:
